@@ -1,11 +1,38 @@
 """C06 — built-in lattice Hamiltonians equal their textbook definitions."""
+from fractions import Fraction
 import numpy as np
 import gen as G
 import hamref as HR
+import emit as E
+import props.c05 as C5
 
 PROP = 'C06'
-COQ_IMPORTS = ['PT.Base.Scalar']
-FORM = 'see coq(): chain tables / graph denotation where the model is available'
+# AutOp / HamIsing first: C17Common and FromOpchains both define [res]/[Ok]/[Err]; the later import wins for bare names
+COQ_IMPORTS = ['PT.Base.Scalar', 'PT.Base.Mx', 'PT.Model.OpGraph', 'PT.Model.C17Common', 'PT.Model.AutOp', 'PT.Model.HamIsing',
+               'PT.Model.Tensor', 'PT.Model.FromOpchains', 'PT.Model.GraphMPO', 'PT.Proofs.DenRev_C05', 'PT.Model.Hamiltonians']
+COQ_PREAMBLE = (C5.COQ_PREAMBLE +
+                'Definition lcq (o q : list Z) (c : QI) : chain QIring := @mkchain QIring o q c 0%nat.\n'
+                'Definition ce (i a b : Z) (o : list (Z * QI)) : aedge QIring := @cedge QIring i a b o.\n'
+                'Definition sqt (l : list QI) : nat -> QI := fun k => nth k l q0.\n'
+                'Definition half : QI := qr 1 2.\n')
+FORM = ('E (exact; every float parameter is an exact rational, instance QIring): the arguments captured at _local_opchains_to_mpo '
+        '(qd, local chain table, operator map, identity id) are compared with the model tables of Model/Hamiltonians.v instantiated at the '
+        "case's parameters; the graph captured at MPO.from_opgraph is compared with graph_eqb against the model's from_opchains graph on the "
+        'shifted chain list (recorded covers and the model cover routine), is_consistent / length / linkage evaluated in Coq; Ising: captured '
+        'automaton and graph vs Model/HamIsing.v through the from_automaton model of C17; linear fermionic: captured graph vs the fold-built '
+        'and the closed-form model graph; bond dimensions vs layer widths; error class for the identically-zero operator')
+SHARD = 25
+TRUSTED = ['hand-written Gallina tables Model/Hamiltonians.v, Model/HamIsing.v, tied to the code by exact agreement on every generated case',
+           'np.sqrt(2.) and np.sqrt(k) enter the operator maps of spin-1 / bosons as recorded binary64 values (abstract elements in the theorems)',
+           'independent dense references harness/hamref.py (own Jordan-Wigner operators) - search only']
+PARTIAL = ('proved for all L >= 1 and all parameters (Properties/C06.v): the shift loop enumerates exactly the identity-padded translates that fit; '
+           'every graph from_opchains returns for the four chain-built models denotes the textbook word sum (L = 1, 2 included); the linear '
+           'fermionic graph denotes sum_i coeff_i I^i (C|A) Z^(L-1-i) for every L; the Ising automaton graph denotes the path sum of the '
+           'automaton (C17) which equals the textbook word sum; kernel-checked finite facts: spin-1/2 and Fermi-Hubbard operator maps, '
+           'XX+YY = (S+S- + S-S+)/2, Kronecker structure, word adjoint / Hermiticity of each table, charges of each operator. '
+           'NOT proved: that from_opchains succeeds on these chain lists (checked per case), dense-matrix equality for all L '
+           '(only through C05_chains_to_mpo under its per-case hypotheses), sqrt entries of spin-1 / boson maps (abstract elements with the stated square).')
+ASSUMPTIONS = ['"documented formula" = the docstring read with: first site most significant, Jordan-Wigner strings to the right (I..I a Z..Z), local basis |n_up n_dn>']
 RULE = ('models: Ising, XXZ spin-1/2, XXZ spin-1, Bose-Hubbard (d in 1..4), Fermi-Hubbard, linear fermionic (both types, complex coefficients); '
         'L from 1 (chains shorter than the longest local term) to dense reach (d=2: 8, d=3: 5, d=4: 4); parameters from {0, 1, -1, dyadic, generic} '
         'excluding only the identically-zero operator; non-trivial = L >= 2 and at least two non-zero parameters; distinct by (model, L, parameters)')
@@ -32,12 +59,35 @@ def cases(rng, tier):
         else:
             c['L'] = rng.choice([1, 2, 3, 4, 5, 6, 7]); c['ftype'] = rng.choice(['c', 'a', 'create', 'annihil'])
         out.append(c)
+    # correspondence-only cases (no dense reference): every model for L in 1..7, parameters with zeros / ones / sign changes
+    m = {'quick': 70, 'thorough': 500, 'search': 0}[tier]
+    for k in range(m):
+        model = ['ising', 'xxz', 'xxz1', 'bose', 'fermi', 'linferm'][k % 6]
+        p = [rng.choice(VALS[:6]) if rng.random() < 0.85 else rng.randint(-16, 16) / 8.0 for _ in range(3)]
+        if rng.random() < 0.25:
+            p[rng.randrange(3)] = 0.0
+        c = {'model': model, 'p': p, 'seed': rng.getrandbits(30), 'L': rng.choice([1, 2, 3, 4, 5, 6, 7]), 'graphonly': True}
+        if model == 'bose':
+            c['d'] = rng.choice([1, 2, 3, 4, 5])
+        if model == 'linferm':
+            c['ftype'] = rng.choice(['c', 'a', 'creation', 'annihilation'])
+        out.append(c)
     return out
 
 
 def build(case):
     import pytenet as ptn
     m, L, p = case['model'], case['L'], case['p']
+    if case.get('graphonly'):
+        if m == 'linferm':
+            rs = np.random.default_rng(case['seed'])
+            co = rs.integers(-2, 3, size=L) + 1j * rs.integers(-2, 3, size=L)
+            if not np.any(co):
+                co[0] = 1
+            return ptn.linear_fermionic_mpo(co, case['ftype']), None, 2
+        f = {'ising': lambda: ptn.ising_mpo(L, *p), 'xxz': lambda: ptn.heisenberg_xxz_mpo(L, *p), 'xxz1': lambda: ptn.heisenberg_xxz_spin1_mpo(L, *p),
+             'bose': lambda: ptn.bose_hubbard_mpo(case['d'], L, *p), 'fermi': lambda: ptn.fermi_hubbard_mpo(L, *p)}[m]
+        return f(), None, None
     if m == 'ising':
         return ptn.ising_mpo(L, *p), HR.ising(L, *p), 2
     if m == 'xxz':
@@ -56,11 +106,88 @@ def build(case):
     return ptn.linear_fermionic_mpo(co, case['ftype']), HR.linear_fermionic(co, create), 2
 
 
+class _Hooks:
+    """wrap (from the outside) the names the constructors use: _local_opchains_to_mpo, MPO.from_opgraph,
+    OpGraph.from_automaton, and the cover routine inside from_opchains; record their arguments"""
+
+    def __init__(self, cap):
+        self.cap = cap
+
+    def __enter__(self):
+        import pytenet.hamiltonian as ham
+        import pytenet.opgraph as og
+        import pytenet.mpo as pm
+        cap = self.cap
+        self.ham, self.og, self.pm = ham, og, pm
+        self.o_loc = ham._local_opchains_to_mpo
+        self.o_fog = pm.MPO.__dict__['from_opgraph']
+        self.o_fa = og.OpGraph.__dict__['from_automaton']
+        self.o_bg, self.o_mvc = og.BipartiteGraph, og.minimum_vertex_cover
+        covers = cap.setdefault('covers', [])
+
+        def loc(qd, lopchains, size, opmap, oid_identity):
+            cap['loc'] = {'qd': [int(x) for x in qd], 'size': int(size), 'idn': int(oid_identity),
+                          'lop': [{'oids': [int(o) for o in c.oids], 'qnums': [int(q) for q in c.qnums], 'coeff': float(c.coeff),
+                                   'istart': int(c.istart)} for c in lopchains],
+                          'opmap': {str(int(k)): np.asarray(v, dtype=float).tolist() for k, v in opmap.items()}}
+            return self.o_loc(qd, lopchains, size, opmap, oid_identity)
+
+        def fog(cls, qd, graph, opmap, compute_nid_map=False):
+            cap['fog'] = {'qd': [int(x) for x in qd], 'graph': C5._gjson(graph),
+                          'opmap': {str(int(k)): np.asarray(v, dtype=float).tolist() for k, v in opmap.items()}}
+            return self.o_fog.__func__(cls, qd, graph, opmap, compute_nid_map)
+
+        def fa(cls, autop, length):
+            def const(x):
+                assert not callable(x)
+                return x
+            cap['aut'] = {'nodes': [[int(n.nid), [int(x) for x in n.eids[0]], [int(x) for x in n.eids[1]], int(n.qnum)] for n in autop.nodes.values()],
+                          'edges': [[int(e.eid), int(e.nids[0]), int(e.nids[1]), [[int(i), float(c)] for i, c in const(e.opics)], bool(const(e.active))]
+                                    for e in autop.edges.values()],
+                          't': [int(autop.nid_terminal[0]), int(autop.nid_terminal[1])], 'L': int(length)}
+            return self.o_fa.__func__(cls, autop, length)
+
+        class RecBG(self.o_bg):
+            def __init__(self, num_u, num_v, edges):
+                self._rec_edges = [(int(a), int(b)) for a, b in edges]
+                super().__init__(num_u, num_v, edges)
+
+        def rec_mvc(graph):
+            uc, vc = self.o_mvc(graph)
+            covers.append({'nu': int(graph.num_u), 'nv': int(graph.num_v), 'edges': [list(e) for e in getattr(graph, '_rec_edges', [])],
+                           'uc': [int(x) for x in uc], 'vc': [int(x) for x in vc]})
+            return uc, vc
+        ham._local_opchains_to_mpo = loc
+        pm.MPO.from_opgraph = classmethod(fog)
+        og.OpGraph.from_automaton = classmethod(fa)
+        og.BipartiteGraph, og.minimum_vertex_cover = RecBG, rec_mvc
+        return self
+
+    def __exit__(self, *a):
+        self.ham._local_opchains_to_mpo = self.o_loc
+        self.pm.MPO.from_opgraph = self.o_fog
+        self.og.OpGraph.from_automaton = self.o_fa
+        self.og.BipartiteGraph, self.og.minimum_vertex_cover = self.o_bg, self.o_mvc
+        return False
+
+
+def _zero_operator(case):
+    """independent of the code: is the documented operator identically zero for these parameters?"""
+    m, L, p = case['model'], case['L'], case['p']
+    if m in ('xxz', 'xxz1'):
+        return p[2] == 0 and (L < 2 or (p[0] == 0 and p[1] == 0))
+    if m in ('bose', 'fermi'):
+        return p[1] == 0 and p[2] == 0 and (L < 2 or p[0] == 0)
+    return None
+
+
 def impl(case):
     import warnings
     warnings.simplefilter('ignore')
+    cap = {}
     try:
-        H, ref, d = build(case)
+        with _Hooks(cap):
+            H, ref, d = build(case)
     except Exception as e:
         import traceback
         tb = traceback.extract_tb(e.__traceback__)[-1]
@@ -68,21 +195,35 @@ def impl(case):
         try:
             # is the reference operator identically zero? (the only excluded case)
             m, L, p = case['model'], case['L'], case['p']
-            refzero = bool(np.linalg.norm({'ising': lambda: HR.ising(L, *p), 'xxz': lambda: HR.xxz(L, *p, 1), 'xxz1': lambda: HR.xxz(L, *p, 2),
-                                           'bose': lambda: HR.bose_hubbard(case.get('d', 2), L, *p), 'fermi': lambda: HR.fermi_hubbard(L, *p)}[m]()) == 0)
+            if case.get('graphonly'):
+                refzero = _zero_operator(case)
+            else:
+                refzero = bool(np.linalg.norm({'ising': lambda: HR.ising(L, *p), 'xxz': lambda: HR.xxz(L, *p, 1), 'xxz1': lambda: HR.xxz(L, *p, 2),
+                                               'bose': lambda: HR.bose_hubbard(case.get('d', 2), L, *p), 'fermi': lambda: HR.fermi_hubbard(L, *p)}[m]()) == 0)
         except Exception:
             pass
-        return {'error': type(e).__name__, 'detail': '%s [%s:%d]' % (str(e)[:120], tb.filename.split('/')[-1], tb.lineno), 'ref_zero': refzero}
+        return {'error': type(e).__name__, 'detail': '%s [%s:%d]' % (str(e)[:120], tb.filename.split('/')[-1], tb.lineno), 'ref_zero': refzero,
+                'cap': cap}
+    base = {'dims': [int(x) for x in H.bond_dims], 'nsites': int(H.nsites), 'sparsity': G.mpo_sparsity_ok(H),
+            'boundary_q': [int(H.qD[0][0]), int(H.qD[-1][0])], 'cap': cap}
+    if case['model'] == 'linferm':
+        rs = np.random.default_rng(case['seed'])
+        L = case['L']
+        co = rs.integers(-2, 3, size=L) + 1j * rs.integers(-2, 3, size=L)
+        if not np.any(co):
+            co[0] = 1
+        base['coeff'] = [[int(c.real), int(c.imag)] for c in co]
+    if ref is None:
+        base['graphonly'] = True
+        return base
     M = G.mpo_dense(H.A)
     Msp = H.as_matrix(sparse_format=True).toarray() if H.nsites >= 1 else M
     Mpt = H.as_matrix()
     scale = 1.0 + float(np.linalg.norm(ref))
-    real_params = True
-    return {'err': float(np.linalg.norm(M - ref)) / scale, 'err_asmatrix': float(np.linalg.norm(Mpt - ref)) / scale,
-            'err_sparse': float(np.linalg.norm(Msp - ref)) / scale,
-            'herm': float(np.linalg.norm(M - M.conj().T)) / scale, 'sparsity': G.mpo_sparsity_ok(H),
-            'dims': [int(x) for x in H.bond_dims], 'nsites': int(H.nsites),
-            'boundary_q': [int(H.qD[0][0]), int(H.qD[-1][0])], 'refnorm': float(np.linalg.norm(ref))}
+    base.update({'err': float(np.linalg.norm(M - ref)) / scale, 'err_asmatrix': float(np.linalg.norm(Mpt - ref)) / scale,
+                 'err_sparse': float(np.linalg.norm(Msp - ref)) / scale,
+                 'herm': float(np.linalg.norm(M - M.conj().T)) / scale, 'refnorm': float(np.linalg.norm(ref))})
+    return base
 
 
 def prop(case, r):
@@ -91,10 +232,11 @@ def prop(case, r):
             return []          # identically-zero operator: excluded by the property
         return ['%s constructor raised %s: %s' % (case['model'], r['error'], r.get('detail', ''))]
     msgs = []
-    if max(r['err'], r['err_asmatrix'], r['err_sparse']) > 1e-11:
-        msgs.append('dense matrix differs from the documented formula (relative %.3g)' % max(r['err'], r['err_asmatrix'], r['err_sparse']))
-    if case['model'] != 'linferm' and r['herm'] > 1e-12:
-        msgs.append('Hamiltonian is not Hermitian for real parameters (%.3g)' % r['herm'])
+    if not r.get('graphonly'):
+        if max(r['err'], r['err_asmatrix'], r['err_sparse']) > 1e-11:
+            msgs.append('dense matrix differs from the documented formula (relative %.3g)' % max(r['err'], r['err_asmatrix'], r['err_sparse']))
+        if case['model'] != 'linferm' and r['herm'] > 1e-12:
+            msgs.append('Hamiltonian is not Hermitian for real parameters (%.3g)' % r['herm'])
     if r['sparsity']:
         msgs.append('MPO tensors not block sparse under the returned quantum numbers: %s' % r['sparsity'])
     if r['nsites'] != case['L']:
@@ -108,15 +250,109 @@ def prop(case, r):
     return msgs
 
 
+# --------------------------------------------------------------------------- model side
+def _q(x):
+    """exact rational of a python float as a QI literal"""
+    return C5.qi_lit(Fraction(float(x)), 0)
+
+
+def _mx(a):
+    a = np.asarray(a, dtype=float)
+    if a.ndim != 2:
+        a = a.reshape(a.shape[0], -1)
+    return '(mq %s %s %s)' % (E.nat(a.shape[0]), E.nat(a.shape[1]), E.lst([E.lst([_q(x) for x in row]) for row in a]))
+
+
+def _opmap(om):
+    return E.lst([E.pair(E.z(int(k)), _mx(v)) for k, v in om.items()])      # dictionary insertion order
+
+
+def _spec(loc):
+    lop = E.lst(['(@mkchain QIring %s %s %s %s)' % (E.zlist(c['oids']), E.zlist(c['qnums']), _q(c['coeff']), E.nat(c['istart'])) for c in loc['lop']])
+    return '(@mkspec QIring %s %s %s %s)' % (E.zlist(loc['qd']), lop, _opmap(loc['opmap']), E.z(loc['idn']))
+
+
+def _model_spec(case):
+    m, p = case['model'], [_q(x) for x in case['p']]
+    if m == 'xxz':
+        return '(@xxz_spec QIring half %s %s %s)' % tuple(p)
+    if m == 'xxz1':
+        return '(@xxz1_spec QIring half %s %s %s %s)' % ((_q(float(np.sqrt(2.0))),) + tuple(p))
+    if m == 'bose':
+        d = case['d']
+        return '(@bose_spec QIring %s (sqt %s) %s %s %s)' % ((E.nat(d), E.lst([_q(float(np.sqrt(float(k)))) for k in range(max(d, 1))])) + tuple(p))
+    if m == 'fermi':
+        return '(@fermi_spec QIring half %s %s %s)' % tuple(p)
+    raise KeyError(m)
+
+
+def _aut(a):
+    nodes = E.lst(['(mknode %s %s %s %s)' % (E.z(n[0]), E.zlist(n[1]), E.zlist(n[2]), E.z(n[3])) for n in a['nodes']])
+    edges = E.lst(['(ce %s %s %s %s)' % (E.z(e[0]), E.z(e[1]), E.z(e[2]), E.lst([E.pair(E.z(i), _q(c)) for i, c in e[3]])) for e in a['edges']])
+    return '(@mkautop QIring %s %s %s %s)' % (nodes, edges, E.z(a['t'][0]), E.z(a['t'][1]))
+
+
 def coq(case, r):
-    return None
+    cap = r.get('cap') or {}
+    m, L = case['model'], case['L']
+    if m in ('xxz', 'xxz1', 'bose', 'fermi'):
+        loc = cap.get('loc')
+        if loc is None:
+            return 'false'            # the constructor no longer goes through _local_opchains_to_mpo
+        tbl = C5.cover_lit(cap.get('covers', []))
+        if 'error' in r:
+            exp = '(FromOpchains.Err FromOpchains.%s)' % C5.ERRMAP.get(r['error'], 'EFuel')
+            return 'Nat.eqb %s %s && check_ham (R := QIring) %s %s %s %s 1%%nat %s []' % (
+                E.nat(loc['size']), E.nat(L), _model_spec(case), _spec(loc), E.nat(L), tbl, exp)
+        fog = cap.get('fog')
+        if fog is None:
+            return 'false'
+        g = C5.graph_lit(fog['graph'])
+        return ('let g := %s in Nat.eqb %s %s && check_ham (R := QIring) %s %s %s %s %s (FromOpchains.Ok g) %s && hyp_ok g && '
+                'zlist_eqb %s %s && opmap_eqb (R := QIring) %s %s') % (
+            g, E.nat(loc['size']), E.nat(L), _model_spec(case), _spec(loc), E.nat(L), tbl, C5.big_nat(C5.bfs_fuel(fog['graph'])),
+            E.natlist(r['dims']), E.zlist(loc['qd']), E.zlist(fog['qd']), _opmap(loc['opmap']), _opmap(fog['opmap']))
+    if 'error' in r:
+        return 'false'
+    fog = cap.get('fog')
+    if fog is None:
+        return 'false'
+    g = C5.graph_lit(fog['graph'])
+    if m == 'ising':
+        a = cap.get('aut')
+        if a is None:
+            return 'false'
+        p = [_q(x) for x in case['p']]
+        return ('let g := %s in Nat.eqb %s %s && check_ising (R := QIring) %s %s %s %s %s g && hyp_ok g && zlist_eqb [0; 0] %s && '
+                'opmap_eqb (R := QIring) ising_opmap %s && match bond_dims g with Some ws => nat_list_eqb ws %s | None => false end') % (
+            g, E.nat(a['L']), E.nat(L), p[0], p[1], p[2], E.nat(L), _aut(a), E.zlist(fog['qd']), _opmap(fog['opmap']), E.natlist(r['dims']))
+    # linear fermionic
+    co = E.lst([C5.qi_lit(Fraction(a), Fraction(b)) for a, b in r['coeff']])
+    create = case['ftype'] in ('c', 'create', 'creation')
+    return 'let g := %s in check_linferm (R := QIring) %s %s %s g %s && hyp_ok g && zlist_eqb [0; 1] %s' % (
+        g, co, E.boolean(create), _opmap(fog['opmap']), E.natlist(r['dims']), E.zlist(fog['qd']))
+
+
+def coq_diag(case, r):
+    cap = r.get('cap') or {}
+    m, L = case['model'], case['L']
+    if m in ('xxz', 'xxz1', 'bose', 'fermi') and cap.get('loc'):
+        return '(spec_eqb (R := QIring) %s %s, spec_graph (R := QIring) (cover_table %s) %s %s)' % (
+            _model_spec(case), _spec(cap['loc']), C5.cover_lit(cap.get('covers', [])), _model_spec(case), E.nat(L))
+    if m == 'ising':
+        p = [_q(x) for x in case['p']]
+        return 'from_automaton_r (@ising_autop QIring %s %s %s) %s' % (p[0], p[1], p[2], E.nat(L))
+    if m == 'linferm' and 'coeff' in r:
+        return 'linferm_build (R := QIring) %s %s' % (E.lst([C5.qi_lit(Fraction(a), Fraction(b)) for a, b in r['coeff']]),
+                                                      E.boolean(case['ftype'] in ('c', 'create', 'creation')))
+    return 'true'
 
 
 def klass(case, r):
     if 'error' in r:
         return case['model'] + ('/zero-operator' if r.get('ref_zero') else '/error')
     nz = sum(1 for x in case['p'] if x != 0)
-    return '%s/L%d/%dnonzero' % (case['model'], min(case['L'], 4), nz)
+    return '%s/L%d/%dnonzero%s' % (case['model'], min(case['L'], 4), nz, '/graph-only' if case.get('graphonly') else '')
 
 
 def nontrivial(case, r):
